@@ -33,44 +33,65 @@ Lemma good_true {A} (P : A -> Prop) (r : res A) : good P r -> good (fun _ => Tru
 Proof. intros H; eapply good_weaken; eauto. Qed.
 
 (* ------------------------------------------------------------------ *)
+(* [safe l]: no suffix of l starts with a non-'<' byte and decodes to the char '<'.
+   True of every valid UTF-8 string (see TermUtf8 below); false e.g. of [192;188], the
+   overlong encoding of '<', on which parse_text makes no progress. *)
+
+Definition safe (l : bytes) : Prop :=
+  forall k x r c n, skipn k l = x :: r -> decode1 (x :: r) = Some (c, n) -> c = 60 -> x = 60.
+
+Lemma skipn_skipn' {A} (m k : nat) (l : list A) : skipn k (skipn m l) = skipn (m + k) l.
+Proof.
+  revert l; induction m; intros l; [reflexivity|].
+  destruct l; cbn [skipn Nat.add]; [destruct k; reflexivity|apply IHm].
+Qed.
+
+Lemma safe_skipn m l : safe l -> safe (skipn m l).
+Proof. intros H k x r c n E. rewrite skipn_skipn' in E. eapply H; eauto. Qed.
 
 Section WithText.
 Variable text : bytes.
 Notation stream := (Stream.stream).
 
-(* the stream invariant: pos <= end, and the cached rest covers [pos, end) *)
+(* the stream invariant: pos <= end, the cached rest covers [pos, end) and is safe *)
 Definition wf (s : stream) : Prop :=
-  s_pos s <= s_end s /\ s_end s <= s_pos s + N.of_nat (length (s_rest s)).
+  (s_pos s <= s_end s /\ s_end s <= s_pos s + N.of_nat (length (s_rest s))) /\ safe (s_rest s).
 
 (* s' is s moved forward by at least k bytes *)
 Definition adv (k : N) (s s' : stream) : Prop :=
   s_end s' = s_end s /\ s_pos s + k <= s_pos s' /\ wf s'.
 
+Ltac nsolve := unfold adv, wf in *; cbn [s_pos s_end s_rest] in *; intuition (auto using safe_skipn; lia).
+
 Lemma adv_wf k s s' : adv k s s' -> wf s'.
 Proof. unfold adv; tauto. Qed.
 
 Lemma adv_refl s : wf s -> adv 0 s s.
-Proof. unfold adv, wf; lia. Qed.
+Proof. nsolve. Qed.
 
 Lemma adv_le k j s s' : j <= k -> adv k s s' -> adv j s s'.
-Proof. unfold adv, wf; lia. Qed.
+Proof. nsolve. Qed.
 
 Lemma adv_trans k j s s' s'' : adv k s s' -> adv j s' s'' -> adv (k + j) s s''.
-Proof. unfold adv, wf; lia. Qed.
+Proof. nsolve. Qed.
 
 Lemma adv_trans0 k j s s' s'' : adv k s s' -> adv j s' s'' -> adv 0 s s''.
+Proof. nsolve. Qed.
+
+Lemma adv_measure k s s' fuel : 1 <= k -> adv k s s' ->
+  s_end s - s_pos s < N.of_nat (S fuel) -> s_end s' - s_pos s' < N.of_nat fuel.
 Proof. unfold adv, wf; lia. Qed.
 
-Lemma wf_new : wf (stream_new text).
-Proof. unfold wf, stream_new, tlen, blen; cbn [s_pos s_end s_rest]. lia. Qed.
+Lemma wf_new : safe text -> wf (stream_new text).
+Proof. intros Hs. unfold wf, stream_new, tlen, blen; cbn [s_pos s_end s_rest]. split; [lia|assumption]. Qed.
 
-Lemma from_substr_good a e : good wf (stream_from_substr text a e).
+Lemma from_substr_good a e : safe text -> good wf (stream_from_substr text a e).
 Proof.
-  unfold stream_from_substr.
+  intros Hs. unfold stream_from_substr.
   destruct (e <? a) eqn:E1; cbn [orb]; [exact I|].
   destruct (tlen text <? e) eqn:E2; [exact I|].
   cbn [good]. unfold wf, tlen, blen in *; cbn [s_pos s_end s_rest].
-  rewrite skipn_length. lia.
+  rewrite skipn_length. split; [lia|apply safe_skipn; assumption].
 Qed.
 
 (* ---- errors ---- *)
@@ -97,7 +118,8 @@ Proof. unfold next_byte. destruct (_ <=? _); [exact I|]. destruct (s_rest s) as 
 Lemma advance_good n s : wf s -> good (adv n s) (advance n s).
 Proof.
   intros W. unfold advance. destruct (s_end s <? s_pos s + n) eqn:E; [exact I|].
-  cbn [good]. unfold adv, wf in *; cbn [s_pos s_end s_rest]. rewrite skipn_length. lia.
+  cbn [good]. unfold adv, wf in *; cbn [s_pos s_end s_rest]. rewrite skipn_length.
+  intuition (auto using safe_skipn; lia).
 Qed.
 
 Lemma scan_le f l r : (scan f l r <= r /\ scan f l r <= length l)%nat.
@@ -110,7 +132,8 @@ Lemma skip_bytes_adv f s : wf s -> adv 0 s (skip_bytes f s).
 Proof.
   intros W. unfold skip_bytes, adv, wf in *; cbn [s_pos s_end s_rest].
   rewrite skipn_length.
-  pose proof (scan_le f (s_rest s) (N.to_nat (s_end s - s_pos s))). lia.
+  pose proof (scan_le f (s_rest s) (N.to_nat (s_end s - s_pos s))).
+  intuition (auto using safe_skipn; lia).
 Qed.
 
 Lemma skip_spaces_adv s : wf s -> adv 0 s (skip_spaces s).
@@ -196,12 +219,24 @@ Proof.
   eapply good_bind; [apply advance_good; assumption|]. intros s' Ha.
   eapply good_weaken; [apply IHfuel|].
   - eapply adv_wf; eauto.
-  - unfold adv, wf in *; lia.
+  - eapply adv_measure; eauto.
   - intros s'' H2. eapply adv_trans0; [exact Ha|exact H2].
 Qed.
 
 Lemma fuel_enough s : wf s -> s_end s - s_pos s < N.of_nat (S (length (s_rest s))).
 Proof. unfold wf; lia. Qed.
+
+(* what parse_text needs: if the current byte is not '<', a char is consumed *)
+Lemma next_char_not_lt s x c n : wf s ->
+  curr_byte_unchecked s = Ok x -> next_char s = Ok (Some (c, n)) -> x <> 60 -> c <> 60.
+Proof.
+  intros [_ Hs] Hx Hc Hne Hc60. unfold curr_byte_unchecked in Hx. unfold next_char in Hc.
+  destruct (s_rest s) as [|y r] eqn:Er; [discriminate|]. injection Hx as ->.
+  destruct (at_end s); [discriminate|].
+  destruct (decode1 (x :: r)) as [[c' n']|] eqn:Ed; [|discriminate].
+  destruct (_ <? _); [discriminate|]. injection Hc as -> ->.
+  apply Hne. eapply (Hs O); eauto. reflexivity.
+Qed.
 
 Lemma skip_chars_good f s : wf s -> good (adv 0 s) (skip_chars text f s).
 Proof. intros W. apply skip_chars_loop_good; [assumption|apply fuel_enough; assumption]. Qed.
@@ -209,6 +244,36 @@ Proof. intros W. apply skip_chars_loop_good; [assumption|apply fuel_enough; assu
 Lemma consume_chars_good f s : wf s -> good (fun p => adv 0 s (snd p)) (consume_chars text f s).
 Proof.
   intros W. unfold consume_chars. eapply good_bind; [apply skip_chars_good; assumption|].
+  intros s' H. eapply good_bind; [apply slice_back_good|]. intros sl _. exact H.
+Qed.
+
+(* parse_text: the current byte is not '<', so at least one char is consumed *)
+Lemma skip_chars_progress s x : wf s -> at_end s = false ->
+  curr_byte_unchecked s = Ok x -> x <> 60 ->
+  good (adv 1 s) (skip_chars text (fun _ ch => negb (ch =? 60)) s).
+Proof.
+  intros W He Hx Hne. unfold skip_chars. cbn [skip_chars_loop].
+  pose proof (next_char_good s) as Hg.
+  destruct (next_char s) as [[[c n]|]| | |] eqn:En; cbn [good bind] in *; try exact I; try contradiction.
+  - destruct (negb (char_is_char c)); [apply good_err_at|].
+    assert (Hc : c <> 60) by (eapply next_char_not_lt; eauto).
+    destruct (N.eqb_spec c 60); [contradiction|]. cbn [negb].
+    eapply good_bind; [apply advance_good; assumption|]. intros s' Ha.
+    eapply good_weaken; [apply skip_chars_loop_good|].
+    + eapply adv_wf; eauto.
+    + pose proof (fuel_enough s W). eapply adv_measure; eauto.
+    + intros s'' H2. cbv beta in H2. unfold adv, wf in *; intuition lia.
+  - unfold next_char in En. rewrite He in En.
+    destruct (decode1 (s_rest s)) as [[c n]|]; [|discriminate].
+    destruct (_ <? _); discriminate.
+Qed.
+
+Lemma consume_chars_progress s x : wf s -> at_end s = false ->
+  curr_byte_unchecked s = Ok x -> x <> 60 ->
+  good (fun p => adv 1 s (snd p)) (consume_chars text (fun _ ch => negb (ch =? 60)) s).
+Proof.
+  intros W He Hx Hne. unfold consume_chars.
+  eapply good_bind; [eapply skip_chars_progress; eassumption|].
   intros s' H. eapply good_bind; [apply slice_back_good|]. intros sl _. exact H.
 Qed.
 
@@ -221,7 +286,7 @@ Proof.
   eapply good_bind; [apply advance_good; assumption|]. intros s' Ha.
   eapply good_weaken; [apply IHfuel|].
   - eapply adv_wf; eauto.
-  - unfold adv, wf in *; lia.
+  - eapply adv_measure; eauto.
   - intros s'' H2. eapply adv_trans0; [exact Ha|exact H2].
 Qed.
 
@@ -246,7 +311,7 @@ Proof.
   destruct (_ || _) eqn:E1; [exact I|]. destruct (_ && _); [|exact I]. cbn [bind].
   unfold slice_len; cbn [sl_start sl_end].
   destruct (s_pos s' - s_pos s =? 0) eqn:E2; [apply good_err_from|].
-  cbn [good snd]. unfold adv, wf in *. lia.
+  cbn [good snd]. nsolve.
 Qed.
 
 Lemma consume_qname_loop_good fuel : forall start sp s, wf s -> s_end s - s_pos s < N.of_nat fuel ->
@@ -259,7 +324,7 @@ Proof.
   { intros n sp' Hn. eapply good_bind; [apply advance_good; assumption|]. intros s' Ha.
     eapply good_weaken; [apply IHfuel|].
     - eapply adv_wf; eauto.
-    - unfold adv, wf in *; lia.
+    - eapply adv_measure; eauto.
     - intros s'' H2. eapply adv_trans0; [exact Ha|exact H2]. }
   destruct (at_end s); [cbn [good snd]; apply adv_refl; assumption|].
   eapply good_bind; [apply curr_byte_unchecked_good|]. intros x _.
@@ -293,7 +358,7 @@ Proof.
   intros W. unfold consume_eq. pose proof (skip_spaces_adv s W) as H0.
   eapply good_bind; [apply consume_byte_good; eapply adv_wf; eauto|]. intros s1 H1.
   cbn [good]. pose proof (skip_spaces_adv s1 (adv_wf _ _ _ H1)) as H2.
-  unfold adv, wf in *; lia.
+  nsolve.
 Qed.
 
 Lemma consume_quote_good s : wf s -> good (fun p => adv 1 s (snd p)) (consume_quote text s).
@@ -314,7 +379,7 @@ Proof.
   destruct ok; cbn [negb]; [|exact I].
   pose proof (try_consume_byte_adv 35 s1 (adv_wf _ _ _ H1)) as H2.
   destruct (try_consume_byte 35 s1) as [is_num s2]. cbn [fst snd] in H2.
-  assert (H12 : adv 1 s s2) by (unfold adv, wf in *; destruct is_num; lia).
+  assert (H12 : adv 1 s s2) by (destruct is_num; nsolve).
   eapply good_bind with
     (Q := fun r => match r with Some p => adv 1 s (snd p) | None => True end).
   - destruct is_num.
@@ -324,15 +389,15 @@ Proof.
       intros [value s4] H4. cbn [snd] in H4.
       destruct (slice_bytes text value); [exact I|].
       destruct (u32_max <? _); [exact I|]. destruct (negb _); [exact I|].
-      cbn [good snd]. unfold adv, wf in *; destruct is_hex; lia.
+      cbn [good snd]. destruct is_hex; nsolve.
     + pose proof (consume_name_good s2 (adv_wf _ _ _ H2)) as H3.
       destruct (consume_name text s2) as [[name s3]| | |]; cbn [good snd] in *;
         try exact I; try contradiction.
-      unfold adv, wf in *; lia.
+      nsolve.
   - intros [[r s3]|] H3; [|exact I]. cbn [snd] in H3.
     pose proof (consume_byte_good 59 s3 (adv_wf _ _ _ H3)) as H4.
     destruct (consume_byte text 59 s3); cbn [good snd] in *; try exact I; try contradiction.
-    unfold adv, wf in *; lia.
+    nsolve.
 Qed.
 
 (* ---- is_xml_str ---- *)
@@ -361,13 +426,7 @@ Qed.
 End WithText.
 
 (* the tactics used by the later files *)
-Ltac gsimp := cbv beta in *; cbn [fst snd good] in *.
+Ltac gsimp := cbv beta in *; cbn beta iota delta [fst snd good] in *.
 
 Ltac solve_adv :=
-  repeat match goal with
-  | H : adv _ _ _ |- _ => unfold adv in H
-  | H : wf _ |- _ => unfold wf in H
-  | H : _ /\ _ |- _ => destruct H
-  end;
-  unfold adv, wf; cbn [s_pos s_end s_rest] in *;
-  repeat match goal with |- _ /\ _ => split end; try lia; auto.
+  unfold adv, wf in *; cbn [s_pos s_end s_rest] in *; intuition (auto using safe_skipn; lia).
